@@ -266,13 +266,21 @@ func (o *Operator) dontUseFlagsForMetaCharacters(input string) string {
 	result = flagsStartRegexp.ReplaceAllLiteralString(result, "")
 
 	flagGroupStartRegexp := regexp.MustCompile(`\(\?[-misU]+:`)
+	searchStart := 0
 	for {
-		location := flagGroupStartRegexp.FindStringIndex(result)
-		if len(location) > 0 {
-			result = o.removeGroup(result, location[0], location[1], false)
-		} else {
+		location := flagGroupStartRegexp.FindStringIndex(result[searchStart:])
+		if len(location) == 0 {
 			break
 		}
+		groupStart := searchStart + location[0]
+		bodyStart := searchStart + location[1]
+		if utils.IsEscaped(result, groupStart) {
+			// an escaped parenthesis followed by `?i:` is ordinary text, not a flag group
+			searchStart = groupStart + 1
+			continue
+		}
+		result = o.removeGroup(result, groupStart, bodyStart, false)
+		searchStart = groupStart
 	}
 	return result
 }
